@@ -192,9 +192,15 @@ def main():
     ap.add_argument("--sample-seed", type=int, default=0)
     ap.add_argument("--list", action="store_true")
     ap.add_argument("--only", nargs="*", default=None, help="FILE:LINE filters")
+    ap.add_argument("--rerun", default=None, help="JSON of an earlier sweep: run again the mutants that survived / ended in a harness error there")
     a = ap.parse_args()
     prop = a.prop.upper()
     muts = enumerate_mutants(prop)
+    if a.rerun:
+        prev = json.load(open(a.rerun))["results"]
+        keys = {(r["file"], r["func"], r["op"], r["orig"], r["mutated"]) for r in prev if r["outcome"] != "killed"}
+        muts = [m for m in muts if (m["file"], m["func"], m["op"], m["orig"], m["mutated"]) in keys]
+        a.max = len(muts) + 1
     if a.only:
         want = set(a.only)
         muts = [m for m in muts if f"{m['file']}:{m['line']}" in want or m["func"] in want]
